@@ -33,6 +33,7 @@ pub fn fresh_shadow(cfg: &Config) -> ModelState {
         tst_code: 0,
         outq: vec![false; cfg.controllers.max(1) as usize],
         plain488: cfg.plain488,
+        no_mav: cfg.no_mav,
     }
 }
 
@@ -217,6 +218,7 @@ impl Prop for C15 {
             controllers: 1,
             tree,
             plain488: false,
+            no_mav: false,
         };
         let mut t = base_trace("C15", seed, run, "history", cfg.clone());
         let tc = TreeCtx::new(&cfg.tree);
